@@ -1,5 +1,6 @@
 """Observation helpers shared by the property monitors."""
 import math
+import os
 import warnings
 
 import numpy as np
@@ -10,10 +11,38 @@ class StepBudgetExceeded(BaseException):
     no `except Exception` inside the library can swallow it."""
 
 
+WARNINGS_AS_ERRORS = os.environ.get('VMON_WARNINGS') == 'error'
+STATS = {'calls_under_error_filter': 0, 'warnings_that_escaped': 0}
+
+
 def observe(fn, *args, **kw):
     """Run fn and return a JSON-able observation:
        {'ok': value, 'warn': [category names]} or
-       {'exc': type name, 'msg': str, 'warn': [...]}."""
+       {'exc': type name, 'msg': str, 'warn': [...]}.
+
+    In the warnings-as-errors configuration (vmon.run VARIANTS) the call is
+    made with the filter `error` in force.  A warning that escapes to the
+    caller is the caller's to see, and is no datum for any property: the call
+    is then repeated the ordinary way.  A warning that is raised and caught
+    inside the library, changing what it returns, comes back as an ordinary
+    observation and is judged by the ordinary oracle."""
+    if WARNINGS_AS_ERRORS:
+        STATS['calls_under_error_filter'] += 1
+        with warnings.catch_warnings():
+            warnings.simplefilter('error')
+            try:
+                return {'ok': fn(*args, **kw), 'warn': []}
+            except StepBudgetExceeded:
+                raise
+            except Warning:
+                STATS['warnings_that_escaped'] += 1
+            except Exception as exc:  # noqa
+                try:
+                    msg = str(exc)
+                except Exception as e2:
+                    msg = '<str() failed: %s>' % type(e2).__name__
+                return {'exc': type(exc).__name__, 'msg': msg[:300],
+                        'obj': exc, 'warn': []}
     with warnings.catch_warnings(record=True) as w:
         warnings.simplefilter('always')
         try:
